@@ -39,6 +39,7 @@ import GgrsModel.Proofs.World
 import GgrsModel.Proofs.DelayStep
 import GgrsModel.Proofs.Demo
 import GgrsModel.Proofs.Pair
+import GgrsModel.Proofs.Triple
 
 namespace Ggrs.SyncLayer
 
@@ -356,6 +357,49 @@ theorem C01_states_agree_two_peers {G : Type} (step : G → List (Input × Input
   intro f hf p hp
   exact hag p (hown p hp) (by rw [hnA]; exact hp) (by rw [hnB]; exact hp) f (by omega) (by omega)
     (by have := hheldA p hp; omega) (by have := hheldB p hp; omega)
+
+end Ggrs
+
+namespace Ggrs
+
+/-- **C01 across three peers (the product under one choice of ghosts).** Three rollback-mode sessions
+side by side (`Proofs/Triple.lean`): each moves by local inputs, cell writes, calls, and arrivals of
+the next frame of a player one of the other two owns, read off that owner's queue. For every run,
+sessions `a` and `b` — any two, the construction is symmetric — agree after the rollback phase of
+their next calls on the input of EVERY player owned by exactly one of the three sessions, for every
+frame both have simulated and both hold: their own players' (the pair argument) and the third
+peer's, whose two copies are both prefixes of the owner's stream. The four-peer case is the same
+construction with one more pair invariant per session; it is not written out. -/
+theorem C01_agree_three_peers (x y : Tri) (h0 : TriInv x) (hrun : TStar x y) (nowA nowB : Nat) (sA' sB' : P2P)
+    (reqsA reqsB : List Request)
+    (hcA : y.a.1.advanceRollbackFrame nowA [] = .ok (sA', reqsA))
+    (hcB : y.b.1.advanceRollbackFrame nowB [] = .ok (sB', reqsB)) :
+    ∃ (r1A r1B : List Request),
+      (reqsA = r1A ∨ ∃ ins, reqsA = r1A ++ [.advance ins]) ∧ (reqsB = r1B ∨ ∃ ins, reqsB = r1B ++ [.advance ins]) ∧
+      ∀ p, OwnedByOne y p → p < y.a.1.sync.queues.length → p < y.b.1.sync.queues.length → ∀ f : Nat,
+        (f : Int) < y.a.1.sync.currentFrame → (f : Int) < y.b.1.sync.currentFrame →
+        (f : Int) ≤ (rget y.a.1.sync.queues p).lastAddedFrame → (f : Int) ≤ (rget y.b.1.sync.queues p).lastAddedFrame →
+        (((execReqs y.a.2 r1A).R f).getD p default).1 = (((execReqs y.b.2 r1B).R f).getD p default).1 :=
+  triple_agree x y h0 hrun nowA nowB sA' sB' reqsA reqsB hcA hcB
+
+/-- Three freshly built sessions satisfy the invariant of the triple. -/
+theorem C01_three_peers_init (a b c : P2P) (RA RB RC : Nat → List (Input × InputStatus)) (n : Nat)
+    (hqa : a.sync.queues = List.replicate n InputQueue.new) (hsta : a.localConnectStatus = List.replicate n {})
+    (hca : a.sync.currentFrame = 0) (hoa : a.outgoingLocalInputs = [])
+    (hqb : b.sync.queues = List.replicate n InputQueue.new) (hstb : b.localConnectStatus = List.replicate n {})
+    (hcb : b.sync.currentFrame = 0) (hob : b.outgoingLocalInputs = [])
+    (hqc : c.sync.queues = List.replicate n InputQueue.new) (hstc : c.localConnectStatus = List.replicate n {})
+    (hcc : c.sync.currentFrame = 0) (hoc : c.outgoingLocalInputs = []) :
+    TriInv ⟨(a, ⟨0, RA⟩), (b, ⟨0, RB⟩), (c, ⟨0, RC⟩)⟩ := by
+  have sa := SessInv_init a RA n hqa hsta hca
+  have ga := GlueInv_init a ⟨fun _ => {}, fun _ => [], fun p f => ((RA f).getD p default).1⟩ n (fun _ => rfl) hoa hsta (by rw [hqa]; simp)
+  have sb := SessInv_init b RB n hqb hstb hcb
+  have gb := GlueInv_init b ⟨fun _ => {}, fun _ => [], fun p f => ((RB f).getD p default).1⟩ n (fun _ => rfl) hob hstb (by rw [hqb]; simp)
+  have sc := SessInv_init c RC n hqc hstc hcc
+  have gc := GlueInv_init c ⟨fun _ => {}, fun _ => [], fun p f => ((RC f).getD p default).1⟩ n (fun _ => rfl) hoc hstc (by rw [hqc]; simp)
+  exact ⟨_, _, _, ⟨sa, ga, sb, gb, fun _ _ _ => PrefixOf.refl _, fun _ _ _ => PrefixOf.refl _⟩,
+    ⟨sa, ga, sc, gc, fun _ _ _ => PrefixOf.refl _, fun _ _ _ => PrefixOf.refl _⟩,
+    ⟨sb, gb, sc, gc, fun _ _ _ => PrefixOf.refl _, fun _ _ _ => PrefixOf.refl _⟩⟩
 
 end Ggrs
 
